@@ -297,6 +297,15 @@ def snapshot_diff(a, b, path="$"):
     """first difference between two snapshots as a short string (or None)"""
     if a == b:
         return None
+    if isinstance(a, tuple) and isinstance(b, tuple) and len(a) == 4 and len(b) == 4 and a[0] == b[0] == "ndarray":
+        if a[1:3] != b[1:3]:
+            return f"{path}: ndarray {a[1]}{a[2]} -> {b[1]}{b[2]}"
+        try:
+            x, y = np.frombuffer(a[3], dtype=a[1]), np.frombuffer(b[3], dtype=b[1])
+            idx = np.nonzero(~((x == y) | ((x != x) & (y != y))))[0]
+            return f"{path}: ndarray {a[1]}{a[2]}: {len(idx)} element(s) changed, first flat index {int(idx[0])}: {x[idx[0]]!r} -> {y[idx[0]]!r}"
+        except Exception:
+            return f"{path}: ndarray {a[1]}{a[2]} content changed"
     if type(a) is not type(b) or not isinstance(a, tuple) or len(a) != len(b):
         return f"{path}: {str(a)[:80]} -> {str(b)[:80]}"
     for i, (x, y) in enumerate(zip(a, b)):
